@@ -205,6 +205,19 @@ Theorem C11_always_fires : forall N, 0 <= N /\ 2 * N + 2 <= CAPMAX ->
 Proof. exact always_fires_total. Qed.
 Print Assumptions C11_always_fires.
 
+(* 10d. the abstract kernel timer of 10-10c (armed flag + programmed expiry) is refined by the timerfd / epoll state machine of
+   src/event/event_epoll.c (_dispatch_timeout_program, tied by harness/c11_epoll.c): whenever the abstract timer is armed,
+   the timerfd is registered and armed in epoll and its last timerfd_settime value is the abstract expiry *)
+Theorem C11_kernel_timer_refines : forall N st i now ks,
+  GInv N st -> Kref st ks -> 0 <= now < T63 ->
+  Kref (fst (program st i now)) (apply_kcalls ks (snd (program st i now))).
+Proof. exact program_refines. Qed.
+Print Assumptions C11_kernel_timer_refines.
+Theorem C11_kernel_expiry_refines : forall st i ks,
+  Kref st ks -> Kref (kernel_expired st i) (updf ks i (merge_timer_k (ks i))).
+Proof. exact kernel_expired_refines. Qed.
+Print Assumptions C11_kernel_expiry_refines.
+
 (* 11. dispatch_source_set_timer: the timer follows only the new settings *)
 Theorem C11_set_timer_replaces : forall st t c tg dl itv,
   t_cfg (tm st t) = Some (c, tg, dl, itv) ->
